@@ -96,9 +96,10 @@ package aggregate
 // next step does not depend on this one.
 //@ extern field:execution/aggregate.samplesHeap.compare(f, s) r
 //@   pure
-//@ pred kInv(a) = a != nil && a.vectorPool != nil && (forall j in 0..len(a.inputToHeap) :: a.inputToHeap[j] != nil && !isnil(a.inputToHeap[j].compare)) &&
-//@     (forall j in 0..len(a.heaps) :: a.heaps[j] != nil)
-//@ pred heapsEmpty(a) = (forall j in 0..len(a.heaps) :: len(a.heaps[j].entries) == 0) && (forall j in 0..len(a.inputToHeap) :: len(a.inputToHeap[j].entries) == 0)
+//@ ghost *aggregate.kAggregate hidx seqint
+//@ pred kInv(a) = a != nil && a.vectorPool != nil && (forall j in 0..len(a.heaps) :: a.heaps[j] != nil && !isnil(a.heaps[j].compare)) &&
+//@     (forall j in 0..len(a.inputToHeap) :: 0 <= a.hidx[j] && a.hidx[j] < len(a.heaps) && a.inputToHeap[j] == a.heaps[a.hidx[j]])
+//@ pred heapsEmpty(a) = forall j in 0..len(a.heaps) :: len(a.heaps[j].entries) == 0
 //@ func (*kAggregate).aggregate
 //@   requires kInv(a) && result != nil && len(SampleIDs) == len(samples) && (forall i in 0..len(SampleIDs) :: SampleIDs[i] < len(a.inputToHeap))
 //@   requires[C07] heaps-empty-between-steps: heapsEmpty(a)
@@ -112,3 +113,31 @@ package aggregate
 //@       (forall j in 0..rangeindex+1 :: len(a.heaps[j].entries) == 0) && (k < 1 ==> heapsEmpty(a) && len(s.SampleIDs) == 0)
 //@   loop 2 invariant kInv(a) && result != nil && len(*result) == old(len(*result)) && s.T == t && len(s.SampleIDs) == len(s.Samples) &&
 //@       (k < 1 ==> len(s.SampleIDs) == 0)
+
+// kAggregate.Next: one output vector per input vector; the k of step i is the sample the parameter
+// operator delivers at position i of its batch; a k that does not fit an int64 (NaN included) is an
+// error, as in the reference engine (statement of C04).
+//@ func (*kAggregate).init
+//@   trusted not yet under contract (label hashing into heaps)
+//@   requires a != nil && ctx != nil
+//@   panics may
+//@   assigns aggregate.kAggregate.series, aggregate.kAggregate.inputToHeap, aggregate.kAggregate.heaps, ghost hidx, model.VectorPool.stepSize
+//@   ensures result == nil ==> kInv(a) && heapsEmpty(a) && len(a.inputToHeap) == a.next.nSeries
+//@ func (*kAggregate).Next
+//@   requires ctx != nil && a != nil && a.next != nil && a.paramOp != nil && a.paramOp.oneSamplePerStep && a.vectorPool != nil && allocated(a.params)
+//@   requires heaps-built-once: a.once != 0 ==> kInv(a) && heapsEmpty(a) && len(a.inputToHeap) == a.next.nSeries
+//@   panics may
+//@   ensures[C18] error-means-no-batch: result1 != nil ==> isnil(result0)
+//@   ensures[C04,C07,C18] one-output-vector-per-input-vector: result1 == nil && !isnil(result0) ==> len(result0) == len(callres("model.VectorOperator.Next", 1, 0))
+//@   at line "defer a.next.GetPool().PutVectors(in)" assume sibling-lockstep-batch-fits: len(in) <= len(a.params)
+// A k of exactly 2^63 passes the range test (float64(math.MaxInt64) is 2^63) and is converted with
+// an implementation-defined result - the reference engine does literally the same.
+//@   implconv line "int(a.params[i])"
+//@   at aggregate.(*kAggregate).aggregate assert[C04] step-is-reduced-with-its-own-k: $t == vector.T && sameslice($SampleIDs, vector.SampleIDs) && sameslice($samples, vector.Samples) &&
+//@       a.params[i] == callres("model.VectorOperator.Next", 2, 0)[i].Samples[0]
+//@   at aggregate.(*kAggregate).aggregate assert[C04] k-fits-an-int64: a.params[i] <= 9223372036854775807.0 && a.params[i] >= -9223372036854775808.0
+//@   at line "overflows int64" assert[C04] error-only-when-k-does-not-fit: !(a.params[i] <= 9223372036854775807.0 && a.params[i] >= -9223372036854775808.0)
+//@   loop 0 invariant a != nil && a.next != nil && a.paramOp != nil && len(in) <= len(a.params) && !isnil(in)
+//@   loop 0 invariant[C04] parameter-of-step-or-NaN: forall j in 0..rangeindex+1 :: a.params[j] == ite(j < len(args), args[j].Samples[0], nan())
+//@   loop 1 invariant a != nil && a.next != nil && a.paramOp != nil && len(in) <= len(a.params) && len(in) <= len(args) && !isnil(in) && kInv(a) && heapsEmpty(a) && len(a.inputToHeap) == a.next.nSeries &&
+//@       len(result) == rangeindex + 1
